@@ -21,6 +21,29 @@ pub struct NameVolume {
     pub parts: Vec<String>,
     /// Steps (thread, calls). A thread starts at its first step and exits after its last one.
     pub schedule: Vec<(usize, usize)>,
+    /// Per thread: names requested from the destructor of a thread-local value of the caller while the thread
+    /// exits (0 = none), and whether that value is created before the thread's first ordinary call.
+    #[serde(default)]
+    pub exit_calls: Vec<(usize, bool)>,
+}
+
+struct ExitGuard {
+    part: String,
+    calls: usize,
+    sink: std::sync::Arc<std::sync::Mutex<Vec<String>>>,
+}
+
+impl Drop for ExitGuard {
+    fn drop(&mut self) {
+        for _ in 0..self.calls {
+            let name = simple_sds::serialize::temp_file_name(&self.part).to_string_lossy().into_owned();
+            if let Ok(mut g) = self.sink.lock() { g.push(name); }
+        }
+    }
+}
+
+thread_local! {
+    static EXIT_GUARD: std::cell::RefCell<Option<ExitGuard>> = std::cell::RefCell::new(None);
 }
 
 enum Cmd {
@@ -33,7 +56,8 @@ impl NameVolume {
         let threads = rng.range_usize(2, 6);
         const PARTS: [&str; 9] = ["", "_", "a", "tmp_0_0", "7", "x_1", "index.gbz", "v1.2", "."];
         let same = rng.chance(1, 2);
-        let first = rng.pick(&PARTS).to_string();
+        let long = |rng: &mut Rng| -> String { let n = *rng.pick(&[200usize, 245, 250, 255, 300]); let mut s = String::from("long-"); while s.len() < n { s.push((b'a' + (s.len() % 26) as u8) as char); } s };
+        let first = if rng.chance(1, 10) { long(rng) } else { rng.pick(&PARTS).to_string() };
         let parts: Vec<String> = (0..threads).map(|_| if same { first.clone() } else { rng.pick(&PARTS).to_string() }).collect();
         // Per thread: a quota and a chunk size; chunks are then interleaved in a random order that
         // keeps each thread's own chunks in order. Some threads start late, some finish early.
@@ -56,7 +80,8 @@ impl NameVolume {
             schedule.push((t, chunks[t][cursor[t]]));
             cursor[t] += 1;
         }
-        NameVolume { parts, schedule }
+        let exit_calls: Vec<(usize, bool)> = (0..threads).map(|_| if rng.chance(1, 4) { (rng.range_usize(1, 40), rng.bool()) } else { (0, false) }).collect();
+        NameVolume { parts, schedule, exit_calls }
     }
 
     pub fn run(&self, prop: &str) -> Outcome {
@@ -66,6 +91,7 @@ impl NameVolume {
         let last_step: Vec<Option<usize>> = (0..n).map(|t| self.schedule.iter().rposition(|(u, _)| *u == t)).collect();
         let mut workers: Vec<Option<(mpsc::Sender<Cmd>, mpsc::Receiver<Vec<String>>, std::thread::JoinHandle<()>)>> = (0..n).map(|_| None).collect();
         let mut all: Vec<(usize, String)> = Vec::new();
+        let exit_sinks: Vec<std::sync::Arc<std::sync::Mutex<Vec<String>>>> = (0..n).map(|_| std::sync::Arc::new(std::sync::Mutex::new(Vec::new()))).collect();
         let mut alive_max = 0usize;
         let mut late_start = false;
         let mut exit_while_others_alive = false;
@@ -76,12 +102,17 @@ impl NameVolume {
                 let (cmd_tx, cmd_rx) = mpsc::channel::<Cmd>();
                 let (res_tx, res_rx) = mpsc::channel::<Vec<String>>();
                 let part = self.parts[*t].clone();
+                let (exit_k, guard_first) = self.exit_calls.get(*t).cloned().unwrap_or((0, false));
+                let sink = exit_sinks[*t].clone();
                 let h = std::thread::spawn(move || {
+                    let install = |part: &String| { if exit_k > 0 { EXIT_GUARD.with(|g| { if g.borrow().is_none() { *g.borrow_mut() = Some(ExitGuard { part: part.clone(), calls: exit_k, sink: sink.clone() }); } }); } };
+                    if guard_first { install(&part); }
                     while let Ok(cmd) = cmd_rx.recv() {
                         match cmd {
                             Cmd::Go(k) => {
                                 let mut names = Vec::with_capacity(k);
                                 for _ in 0..k { names.push(simple_sds::serialize::temp_file_name(&part).to_string_lossy().into_owned()); }
+                                if !guard_first { install(&part); }
                                 if res_tx.send(names).is_err() { break; }
                             },
                             Cmd::Exit => break,
@@ -109,6 +140,12 @@ impl NameVolume {
                     return out.fail(Violation::new(prop, "name-panic", "temp_file_name", format!("thread {} panicked while exiting", t)));
                 }
                 if workers.iter().any(|w| w.is_some()) { exit_while_others_alive = true; }
+                // Names handed out while the thread was exiting.
+                let late: Vec<String> = exit_sinks[*t].lock().map(|g| g.clone()).unwrap_or_default();
+                let want = self.exit_calls.get(*t).map(|e| e.0).unwrap_or(0);
+                if late.len() != want { return out.fail(Violation::new(prop, "name-panic", "temp_file_name", format!("thread {} should have requested {} names while exiting, {} arrived", t, want, late.len()))); }
+                if want > 0 { out.stats.probe("names requested from a thread-local destructor at thread exit"); }
+                for name in late { all.push((*t, name)); }
             }
         }
         let mut seen: BTreeSet<&str> = BTreeSet::new();
@@ -142,8 +179,9 @@ impl NameVolume {
         }
         // Merge two threads into one (fewer actors).
         let n = self.parts.len();
-        if n > 2 { for t in 1..n { let mut s = self.clone(); for step in s.schedule.iter_mut() { if step.0 == t { step.0 = 0; } else if step.0 > t { step.0 -= 1; } } s.parts.remove(t); out.push(s); } }
+        if n > 2 { for t in 1..n { let mut s = self.clone(); for step in s.schedule.iter_mut() { if step.0 == t { step.0 = 0; } else if step.0 > t { step.0 -= 1; } } s.parts.remove(t); if t < s.exit_calls.len() { s.exit_calls.remove(t); } out.push(s); } }
         for i in 0..self.parts.len() { if self.parts[i] != "a" { let mut s = self.clone(); s.parts[i] = "a".into(); out.push(s); } }
+        for i in 0..self.exit_calls.len() { if self.exit_calls[i].0 > 0 { let mut s = self.clone(); s.exit_calls[i].0 = 0; out.push(s); if self.exit_calls[i].0 > 1 { let mut s = self.clone(); s.exit_calls[i].0 = 1; out.push(s); } } }
         out
     }
 }
